@@ -83,6 +83,8 @@ pub struct Tags {
     pub place: u8,
     /// extra unknown boxes inside udta before meta
     pub udta_extra: bool,
+    /// per item (same order as `items`, missing = false): the item box uses the 64-bit size header
+    pub large_items: Vec<bool>,
 }
 
 #[derive(Debug, Clone)]
@@ -290,7 +292,7 @@ fn build_trak(m: &Movie, t: &MTrack, chunk_offsets: &[u64]) -> BoxT {
 pub fn build_tags(tags: &Tags) -> BoxT {
     let hdlr = enc_hdlr(&HdlrF { handler: tags.handler, name: Vec::new(), ..Default::default() });
     let mut ilst = BoxT::new(b"ilst");
-    for (typ, dt, payload) in &tags.items {
+    for (k, (typ, dt, payload)) in tags.items.iter().enumerate() {
         if *dt == RAW_ITEM {
             // an unrelated item with arbitrary content: the payload is the item's raw body
             // (no `data` child; an empty payload gives a header-only 8-byte item)
@@ -300,6 +302,11 @@ pub fn build_tags(tags: &Tags) -> BoxT {
             }
         } else {
             ilst.push(enc_item(typ, *dt, payload));
+        }
+        if tags.large_items.get(k).copied().unwrap_or(false) {
+            if let Some(Part::Child(c)) = ilst.parts.last_mut() {
+                c.large = true;
+            }
         }
     }
     let children = if tags.hdlr_first { vec![hdlr, ilst] } else { vec![ilst, hdlr] };
